@@ -53,7 +53,8 @@ METHODS = {
         ('jump_diffusivity', [((3,), {}), ((1,), {}), ((2,), {}), ((), {'dimensions': 2}), ((), {'dimensions': 3}), ((-1,), {}), ((-2,), {})]),
         ('matrix', [((), {})]),
         ('collective', [((), {}), ((0.5,), {}), ((2.0,), {}), ((), {'max_dist': 4.0}), ((), {'max_dist': 2.0}), ((1,), {}),
-                        (({'fwu': [2.0, 'bohr']},), {}), ((), {'max_dist': {'fwu': [4.0, 'bohr']}}), (({'npf': 2.0},), {}), ((), {'max_dist': {'fwu': [0.5, 'nm']}})]),
+                        (({'fwu': [2.0, 'bohr']},), {}), ((), {'max_dist': {'fwu': [4.0, 'bohr']}}), (({'npf': 2.0},), {}), ((), {'max_dist': {'fwu': [0.5, 'nm']}}),
+                        ((0,), {}), ((), {'max_dist': 0.0}), ((False,), {})]),  # falsy but legal: no neighbour is closer than 0
         ('activation_energies', [((2,), {}), ((3,), {}), ((), {'n_parts': 2}), ((60,), {})]),
         ('counter', [((), {})]),
         ('_counter', [((), {})]),
@@ -460,6 +461,7 @@ def generate(run_seed: int, tier: str = 'quick', stream: str = 'seq') -> dict:
         'CONCURRENT': rng.pick([0, 0.5, 1.5]),
         'CONSUME': rng.pick([0, 1, 2.5]),
         'CLONE': rng.pick([0, 0.5, 1.5]),
+        'FROM_WORKER': rng.pick([0, 0, 0.6, 1.5]),
     }
     n_ops = rng.randint(10, 120 if tier == 'quick' else 250)
     ops = []
@@ -551,8 +553,27 @@ def generate(run_seed: int, tier: str = 'quick', stream: str = 'seq') -> dict:
                    'gc': rng.chance(0.3), 'client': rng.randrange(n_clients)}
             names.append((new['name'], k))
             ops.append(new)
+        elif kind == 'FROM_WORKER':
+            if n_worlds < 2:
+                continue
+            k = rng.pick([x for x in cfg['kinds'] if x != 'collective'] or ['metrics'])
+            wa = rng.randrange(n_worlds)
+            wb = (wa + 1 + rng.randrange(n_worlds - 1)) % n_worlds
+            mi = rng.randrange(DECORATED[k])
+            na, nb = new_name(), new_name()
+            ops.append({'op': 'FROM_WORKER', 'name': na, 'kind': k, 'w': wa, 'm': mi, 'extra': rng.randrange(3), 'client': rng.randrange(n_clients)})
+            names.append((na, k))
+            # the parent's own objects of the same kind, created afterwards, asked the same question
+            for _ in range(rng.randint(1, 3)):
+                c = {'op': 'CREATE', 'name': new_name(), 'kind': k, 'w': wb, 'client': rng.randrange(n_clients)}
+                if k in ('metrics', 'transitions'):
+                    c['v'] = 0
+                names.append((c['name'], k))
+                ops.append(c)
+                ops.append({'op': 'QUERY', 'obj': c['name'], 'm': mi, 'a': 0, 'client': 0})
+            ops.append({'op': 'QUERY', 'obj': na, 'm': mi, 'a': 0, 'client': 0})
         elif kind == 'CLONE':
-            cand = [(n, k) for n, k in names if k != 'collective']
+            cand = list(names)
             if not cand:
                 continue
             n, k = rng.pick(cand)
@@ -1202,7 +1223,7 @@ class Run:
         import pickle
 
         e = self.entries.get(op['obj'])
-        if e is None or e.obj is None or e.kind == 'collective' or self.live_count() >= MAX_LIVE:
+        if e is None or e.obj is None or self.live_count() >= MAX_LIVE:
             return self.trace.log(ev='CLONE', step=self.step, skipped=True)
         how = op.get('how', 'copy')
         try:
@@ -1215,9 +1236,64 @@ class Run:
         except Exception as ex:  # noqa: BLE001  (whether these objects can be pickled at all is not C20's business)
             return self.trace.log(ev='CLONE', step=self.step, skipped=type(ex).__name__)
         deps = list(e.deps) if how == 'copy' else []
-        self.entries[op['name']] = Entry(op['name'], e.kind, e.recipe, new, op.get('client', 0), deps, list(e.maybe_deps) if how == 'copy' else [])
+        self.entries[op['name']] = Entry(op['name'], e.kind, e.recipe, new, op.get('client', 0), deps, list(e.maybe_deps) if (how == 'copy' or e.kind == 'collective') else [],
+                                         checkable=e.kind != 'collective')
         self.stats.fault('clone_' + how)
         self.trace.log(ev='CLONE', step=self.step, src=e.name, name=op['name'], how=how)
+
+    def op_from_worker(self, op):
+        """An analysis object built *and queried* in a forked worker comes back pickled (as from a process pool); the parent goes on
+        using it next to its own objects.  Per-process bookkeeping that travels inside the pickle must not make the two kinds meet."""
+        import pickle
+
+        if self.live_count() >= MAX_LIVE:
+            return self.trace.log(ev='FROM_WORKER', step=self.step, skipped='cap')
+        kind = op['kind']
+        w = op['w'] % len(self.worlds)
+        recipe = (kind, w, 0) if kind in ('metrics', 'transitions') else ('jumps', w, 0, 0)
+        ms = METHODS[kind]
+        mi = op['m'] % DECORATED[kind]
+        method, variants = ms[mi]
+        r_fd, w_fd = os.pipe()
+        pid = os.fork()
+        if pid == 0:
+            code = 0
+            try:
+                os.close(r_fd)
+                objs = [self.build(recipe, twin=False) for _ in range(1 + op.get('extra', 0) % 3)]  # a worker handles a few objects
+                for o in objs:
+                    try:
+                        self.call(o, method, variants[0])
+                    except Exception:  # noqa: BLE001
+                        pass
+                data = pickle.dumps(objs[-1])
+                os.write(w_fd, len(data).to_bytes(8, 'big'))
+                mv = memoryview(data)
+                while mv:
+                    n = os.write(w_fd, mv)
+                    mv = mv[n:]
+            except BaseException:  # noqa: BLE001
+                code = 3
+            finally:
+                os._exit(code)
+        os.close(w_fd)
+        buf = b''
+        while True:
+            b = os.read(r_fd, 1 << 16)
+            if not b:
+                break
+            buf += b
+        os.close(r_fd)
+        _, st = os.waitpid(pid, 0)
+        if st != 0 or len(buf) < 8:
+            return self.trace.log(ev='FROM_WORKER', step=self.step, skipped='worker failed (objects may not be picklable)')
+        try:
+            obj = pickle.loads(buf[8:])
+        except Exception as ex:  # noqa: BLE001
+            return self.trace.log(ev='FROM_WORKER', step=self.step, skipped=type(ex).__name__)
+        self.entries[op['name']] = Entry(op['name'], kind, recipe, obj, op.get('client', 0))
+        self.stats.fault('object_from_worker_process')
+        self.trace.log(ev='FROM_WORKER', step=self.step, name=op['name'], recipe=list(recipe), method=method)
 
     def op_consume(self, op):
         e = self.entries.get(op['obj'])
@@ -1296,7 +1372,7 @@ class Run:
         else:
             gc.enable()
         table = {'CREATE': self.op_create, 'QUERY': self.op_query, 'DROP': self.op_drop, 'GC': self.op_gc, 'SHARE': self.op_share,
-                 'CHURN': self.op_churn, 'REUSE_PROBE': self.op_reuse, 'FLOOD': self.op_flood, 'CONCURRENT': self.op_concurrent, 'CONSUME': self.op_consume, 'CLONE': self.op_clone}
+                 'CHURN': self.op_churn, 'REUSE_PROBE': self.op_reuse, 'FLOOD': self.op_flood, 'CONCURRENT': self.op_concurrent, 'CONSUME': self.op_consume, 'CLONE': self.op_clone, 'FROM_WORKER': self.op_from_worker}
         for i, op in enumerate(self.sc['ops']):
             self.step = i
             table[op['op']](op)
